@@ -52,13 +52,15 @@ Rule(A, u) == Lowest(RuleSet(A, Top, u))
 \* n is an admissible answer for input u when ties within TolU may go either way:
 \* (a) n's own bucket contains some u' within TolU of u, or
 \* (b) n is nearest (within 2*TolU) and no other note's bucket contains every u' within TolU of u
-AcceptTop(A, top, u, n) ==
+AcceptTopT(A, top, u, n, tol) ==
   /\ n \in Cands(A, top)
-  /\ \/ (Volt(n) <= u + TolU /\ u - TolU < Volt(n) + SU)
-     \/ /\ \A m \in Cands(A, top) : AbsQ(Volt(n) - u) <= AbsQ(Volt(m) - u) + 2 * TolU
-        /\ ~\E m \in Cands(A, top) : m # n /\ Volt(m) + TolU <= u /\ u + TolU < Volt(m) + SU
+  /\ \/ (Volt(n) <= u + tol /\ u - tol < Volt(n) + SU)
+     \/ /\ \A m \in Cands(A, top) : AbsQ(Volt(n) - u) <= AbsQ(Volt(m) - u) + 2 * tol
+        /\ ~\E m \in Cands(A, top) : m # n /\ Volt(m) + tol <= u /\ u + tol < Volt(m) + SU
+AcceptTop(A, top, u, n) == AcceptTopT(A, top, u, n, TolU)
 \* the statement is silent on whether notes above the input range take part: accept both readings
-Accept(A, u, n) == AcceptTop(A, Top, u, n) \/ AcceptTop(A, TopIn, u, n)
+AcceptT(A, u, n, tol) == AcceptTopT(A, Top, u, n, tol) \/ AcceptTopT(A, TopIn, u, n, tol)
+Accept(A, u, n) == AcceptT(A, u, n, TolU)
 
 \* ---- C09: hysteresis ---------------------------------------------------------------------------
 LastValid == hist /\ (IF CacheCheck = "pc" THEN last % PC ELSE ClampNote(last)) \in allowed
